@@ -12,7 +12,7 @@
 From SF Require Import Base.Prelude Gen.Generated Unsized.Types Unsized.Parse Unsized.Machine Unsized.Ops.
 From SF Require Import Unsized.Proofs.EncodeParse Unsized.Proofs.Mem Unsized.Proofs.Notify Unsized.Proofs.Flat.
 From SF Require Import Unsized.Proofs.Layout Unsized.Proofs.Path Unsized.Proofs.Resize Unsized.Proofs.GenOps Unsized.Proofs.History.
-From SF Require Import Unsized.Proofs.History2 Unsized.Proofs.ExecTie2 Unsized.Proofs.History4 Unsized.Proofs.InitFail.
+From SF Require Import Unsized.Proofs.History2 Unsized.Proofs.ExecTie2 Unsized.Proofs.History4 Unsized.Proofs.InitFail Unsized.Proofs.StringSet.
 
 (* histories of the full operation set with failures in them: the machine reports the owned model's outcome of every step
    (success, or the error code) and every reachable state represents the owned model's value *)
@@ -128,6 +128,18 @@ Theorem C06_failing_initializer_refuted :
        ulist_insert t s top ps idx kind keys = Ok (s', top', [-1; c]) ->
        ztake (m_len s') (m_mem s') = encode t v).
 Proof. exact insert_failure_clean_refuted. Qed.
+
+(* UnsizedString::set with a string that does not fit the length prefix: the error is reported and the string is left
+   CLEARED - still the canonical encoding of a value of the type, accessors valid (set is clear + push_all, a composite,
+   not one of the single-container operations the atomicity clause names) *)
+Theorem C06_string_set_failure_leaves_a_value :
+  forall ovf t v s top pi0 pi c lw old bs,
+    RepF pi0 t v s top -> resolve t v pi = Some (TStruct [TList c lw], VStruct [VList old]) ->
+    256 ^ Z.of_nat lw <= zlen bs ->
+    exists s' top' pi', mstepStr ovf t s top pi bs = Ok (s', top', [-1; E_TOPRIM]) /\
+                        RepF pi' t (plug t v pi (VStruct [VList []])) s' top' /\
+                        m_cap s' = m_cap s /\ m_refuse s' = m_refuse s.
+Proof. exact string_set_too_long. Qed.
 
 Example C06_nonvacuous :
   let ts := [TList (FAny 1) 1; TList (FAny 1) 4] in
